@@ -1,24 +1,27 @@
 #!/bin/sh
 # tools/run_refactors.sh : apply each kept behaviour-preserving refactoring (refactors/<area>/patch.diff) to a fresh scratch worktree of
 # /repo, confirm the suite still passes there, run every quick check against it (all must exit 0: no false alarm, no analysis error),
-# and remove the worktree again.
+# and remove the worktree again. Eight refactorings are evaluated at a time.
 cd /verif
-rc=0
-for d in refactors/*/; do
-  id=$(basename $d)
+props=$(python3 -c "import json;print(' '.join(c['property_id'] for c in json.load(open('MANIFEST.json'))['checks']))")
+one() {
+  id=$1
   wt=$(mktemp -d /tmp/rfeval_XXXXXX); rmdir $wt
-  git -C /repo worktree add -q --detach $wt HEAD || exit 2
-  if git -C $wt apply /verif/$d/patch.diff 2>/dev/null; then
+  git -C /repo worktree add -q --detach $wt HEAD || { echo "$id: worktree failed"; return 2; }
+  if git -C $wt apply /verif/refactors/$id/patch.diff 2>/dev/null; then
     tests=$(cd $wt && /venv/bin/python -m pytest -q -p no:cacheprovider 2>&1 | tail -1 | cut -c1-12)
     bad=""
-    for p in $(python3 -c "import json;print(' '.join(c['property_id'] for c in json.load(open('MANIFEST.json'))['checks']))"); do
+    for p in $props; do
       ./check $p --repo $wt --no-evidence >/dev/null 2>&1 || bad="$bad $p"
     done
     echo "$id: tests: $tests; checks that raised an alarm:${bad:- none}"
-    [ -n "$bad" ] && rc=1
   else
     echo "$id: patch no longer applies to HEAD (skipped)"
   fi
   git -C /repo worktree remove --force $wt
-done
-exit $rc
+}
+if [ -n "$1" ]; then one "$1"; exit 0; fi
+out=$(ls refactors | xargs -P 8 -I{} sh tools/run_refactors.sh {})
+echo "$out" | sort
+echo "$out" | grep -q "alarm: C\|alarm:C\|failed" && exit 1
+exit 0
